@@ -9,7 +9,62 @@ import (
 
 var registry []*vf.Property
 
-func register(p *vf.Property) { registry = append(registry, p) }
+func register(p *vf.Property) {
+	add386(p)
+	registry = append(registry, p)
+}
+
+// arch386 lists, per property, the streams that are run a second time in the
+// GOARCH=386 build of driver and library (int and uintptr are 32 bits wide
+// there; float64 arithmetic is SSE2 as on amd64) with 1/div of the cases.
+// C17 declares its 386 streams itself.
+var arch386 = map[string][]struct {
+	stream string
+	div    int
+}{
+	"C05": {{"roundtrip", 5}},
+	"C06": {{"roundtrip", 8}, {"forged", 4}},
+	"C07": {{"b58-bytes", 8}, {"b58-strings", 8}, {"b58check", 8}, {"bech32-decode", 8}, {"convertbits-generic", 8}},
+	"C09": {{"murmur", 6}, {"history", 10}},
+	"C12": {{"mutations", 5}, {"deep", 5}},
+	"C13": {{"random", 5}},
+	"C14": {{"random", 6}, {"reduction", 4}},
+	"C16": {{"blocks", 10}, {"txs", 10}},
+	"C18": {{"seeded", 10}},
+	"C19": {{"seeded", 5}, {"coinset", 5}},
+}
+
+func add386(p *vf.Property) {
+	for _, e := range arch386[p.ID] {
+		found := false
+		for _, st := range p.Streams {
+			if st.Name != e.stream {
+				continue
+			}
+			found = true
+			cp := *st
+			cp.Name = st.Name + "-386"
+			cp.Arch386 = true
+			cp.Race = false
+			cp.Exhaustive = false
+			n, div := st.N, e.div
+			cp.N = func(t vf.Tier) int {
+				k := n(t) / div
+				if k < 1 {
+					k = 1
+				}
+				return k
+			}
+			if cp.RlimitAS > 2<<30 {
+				cp.RlimitAS = 0 // a 32-bit process cannot exceed 4 GiB anyway
+			}
+			p.Streams = append(p.Streams, &cp)
+		}
+		if !found {
+			panic("props: arch386 table names an unknown stream " + p.ID + "/" + e.stream)
+		}
+	}
+}
 
 // All returns every implemented property, sorted by id.
 func All() []*vf.Property {
